@@ -1,6 +1,7 @@
 package main
 
 import (
+	"strconv"
 	"os"
 	"fmt"
 	"go/token"
@@ -800,6 +801,13 @@ func (fc *fsCtx) ruleAtomicCreateDir2(r *Report, dir *fsImpl, full bool) {
 		var flags int64 = -1
 		if ci, ok := open.In.(ssa.CallInstruction); ok {
 			if fl, okc := foldInt(ci.Common().Args[2]); okc {
+				flags = fl
+			}
+		}
+		if flags < 0 && len(open.Args) >= 3 {
+			// the open sits in a wrapper: the flags are a constant at the wrapper's call, which the abstract
+			// path has substituted into the event
+			if fl, err := strconv.ParseInt(open.Args[2], 0, 64); err == nil {
 				flags = fl
 			}
 		}
